@@ -1,5 +1,6 @@
 import GoUefi.Gen
 import GoUefi.Lemmas.VarFs
+import GoUefi.Lemmas.GenCodec
 /-!
 # C11 (generated tie) — the attribute subset test of the current source
 
@@ -28,3 +29,75 @@ end GoUefi.C11
 
 #print axioms GoUefi.C11.C11g_equal
 #print axioms GoUefi.C11.C11g_equal_iff
+
+/-! ## the read path: `ParseEfivars` (both copies) as the source has it now
+
+`ParseEfivars(f, size)` is what `ReadEfivarsFile` hands the opened file and its `Stat` size to.  The
+Go code allocates `size - 4` bytes: for `size < 4` that is `make` with a negative length, a run-time
+panic, which the translation (lists, `Int.toNat`) does not show — the theorems below therefore carry
+the hypothesis `4 ≤ size`, and the harness covers files shorter than four bytes on the real code. -/
+namespace GoUefi.C11
+open GoUefi GoUefi.Gen GoUefi.GenCodec
+
+/-- A file that holds at least `size ≥ 4` bytes: the attribute word is the little-endian reading of
+    the first four bytes, the value is exactly the next `size - 4` bytes (not fewer, not the whole
+    rest), and the reader is left behind them. -/
+theorem C11g_parse_ok (f : List UInt8) (size : Int) (hs : 4 ≤ size) (hf : size.toNat ≤ f.length) :
+    attributes.ParseEfivars f size =
+      (f.drop size.toNat, decLE32 (f.take 4), (f.drop 4).take (size.toNat - 4), none) := by
+  have h4 : 4 ≤ f.length := by omega
+  unfold attributes.ParseEfivars
+  simp only [attributes.SizeofAttributes, List.length_replicate]
+  rw [readBytes_ge h4 (by decide)]
+  simp only [Option.isNone_none, Option.isSome_none, if_true, Bool.false_eq_true, if_false]
+  by_cases h0 : (size - 4).toNat = 0
+  · have hz : size.toNat = 4 := by omega
+    simp [h0, hz, readBytes]
+  · have hle : (size - 4).toNat ≤ (f.drop 4).length := by rw [List.length_drop]; omega
+    rw [readBytes_ge hle (by omega)]
+    have e1 : (size - 4).toNat = size.toNat - 4 := by omega
+    have e2 : 4 + (size.toNat - 4) = size.toNat := by omega
+    simp [e1, List.drop_drop, e2]
+
+/-- A file shorter than `size`: an error, attributes 0 and no value — never a short value. -/
+theorem C11g_parse_short (f : List UInt8) (size : Int) (hs : 4 ≤ size) (hf : f.length < size.toNat) :
+    ∃ e, attributes.ParseEfivars f size = ([], 0, [], some e) := by
+  unfold attributes.ParseEfivars
+  simp only [attributes.SizeofAttributes, List.length_replicate]
+  by_cases h4 : f.length < 4
+  · obtain ⟨s, hr⟩ := readBytes_short (n := 4) h4
+    rw [hr]
+    exact ⟨_, by simp [goWrap]; rfl⟩
+  · rw [readBytes_ge (by omega) (by decide)]
+    simp only [Option.isNone_none, Option.isSome_none, if_true, Bool.false_eq_true, if_false]
+    have hlt : (f.drop 4).length < (size - 4).toNat := by rw [List.length_drop]; omega
+    obtain ⟨s, hr⟩ := readBytes_short hlt
+    rw [hr]
+    exact ⟨s, by simp⟩
+
+/-- the attribute word as the model reads it (`rd32` of the first four bytes) -/
+theorem C11g_parse_attrs (f : List UInt8) (size : Int) (hs : 4 ≤ size) (hf : size.toNat ≤ f.length) :
+    (attributes.ParseEfivars f size).2.1.toNat = rd32 (f.take 4) := by
+  rw [C11g_parse_ok f size hs hf]
+  exact decLE32_toNat _ (by rw [List.length_take]; omega)
+
+/-- the value is independent of what follows it in the reader and has exactly `size - 4` bytes -/
+theorem C11g_parse_value_length (f : List UInt8) (size : Int) (hs : 4 ≤ size) (hf : size.toNat ≤ f.length) :
+    (attributes.ParseEfivars f size).2.2.1.length = size.toNat - 4 := by
+  rw [C11g_parse_ok f size hs hf]
+  simp only [List.length_take, List.length_drop]; omega
+
+/-- the wrapper's copy is the same function -/
+theorem C11g_parse_twins (t : fswrapper.FSWrapper) (f : List UInt8) (size : Int) :
+    fswrapper.FSWrapper.ParseEfivars t f size = attributes.ParseEfivars f size := rfl
+
+example : attributes.ParseEfivars [7, 0, 0, 0, 1, 2, 3, 9] 7 = ([9], 7, [1, 2, 3], none) := by decide +kernel
+example : (attributes.ParseEfivars [7, 0, 0, 0, 1, 2] 7).2.2.2.isSome = true := by decide +kernel
+
+end GoUefi.C11
+
+#print axioms GoUefi.C11.C11g_parse_ok
+#print axioms GoUefi.C11.C11g_parse_short
+#print axioms GoUefi.C11.C11g_parse_attrs
+#print axioms GoUefi.C11.C11g_parse_value_length
+#print axioms GoUefi.C11.C11g_parse_twins
